@@ -5,6 +5,7 @@
    token, and how the stream ended) and the outcome of types.Parse (class, line, column, and the value). *)
 From Coq Require Import ZArith NArith Bool List.
 From PcoreV Require Import Model.Base Model.Lexer Model.Parser Model.Resolve Model.ResolveObj Model.ResolveHier.
+From PcoreV Require Model.ResolveAlias.
 Import ListNotations.
 Open Scope Z_scope.
 
@@ -218,3 +219,23 @@ Definition like_check (c : c06lcase) : bool :=
   end.
 
 Definition like_mismatches (cs : list c06lcase) : list N := failing like_check cs.
+
+(* ---- the walk over a set of alias declarations (Model/ResolveAlias.v; harness/cmd/c06/genalias.go) ----
+   observed: the class of the outcome of Context.ParseType on the type set (0 a type, 1 UNRESOLVED_TYPE,
+   2 ILLEGAL_OBJECT_INHERITANCE, 3 NOT_PARAMETERIZED_TYPE, 4 ILLEGAL_ARGUMENT_TYPE, 6 fault, 7 other, 9 no answer) and,
+   for a type, the head of the resolved type of every member in the order of declaration. *)
+Record c06acase := mkACase { ac_decls : list (nat * ResolveAlias.aexp); ac_class : nat; ac_heads : list nat }.
+
+Definition alias_check (c : c06acase) : bool :=
+  let r := ResolveAlias.resolve_all (ac_decls c) in
+  (Nat.eqb (ac_class c) (ResolveAlias.rres_class r)
+   (* the creator of TypeReference words PCORE_ILLEGAL_ARGUMENT_TYPE with the printed type of the argument
+      (types.go:212 px.DetailedValueType(actual).String()); the printer may ask an alias that has no resolved type
+      yet, which raises PCORE_UNRESOLVED_TYPE instead: the printer is not part of this model *)
+   || (Nat.eqb (ResolveAlias.rres_class r) 4 && Nat.eqb (ac_class c) 1)
+   (* likewise PCORE_ILLEGAL_OBJECT_INHERITANCE is worded with the printed type of the illegal parent
+      (objecttype.go illegalParent: tp.PType().String()) *)
+   || (Nat.eqb (ResolveAlias.rres_class r) 2 && Nat.eqb (ac_class c) 1)) &&
+  list_eqb Nat.eqb (ac_heads c) (ResolveAlias.resolved_heads r).
+
+Definition alias_mismatches (cs : list c06acase) : list N := failing alias_check cs.
